@@ -26,7 +26,7 @@ import neuropixel  # noqa: E402
 PROP = "C04"
 LEVEL = "fault_enumeration"
 TIERS = {
-    "quick": {"runs": 320, "budget_s": 480, "det_pairs": 3},
+    "quick": {"runs": 1200, "budget_s": 480, "det_pairs": 3},
     "thorough": {"runs": 100000, "budget_s": 1800, "det_pairs": 6},
 }
 RUN_TIMEOUT = 900
